@@ -48,3 +48,18 @@ Fixpoint mismatches_from (i : nat) (got expected : list val) : list nat :=
   | _, _ => [i]
   end.
 Definition mismatches := mismatches_from 0.
+
+(* ---------------------------------------------------------------- exceptions as values *)
+Inductive exn := IndexError | StopIteration | ValueError | KeyError | TypeError | AssertionError | AttributeError | OutOfFuel.
+Inductive result (A : Type) := Ok (a : A) | Raise (e : exn).
+Arguments Ok {A} a.
+Arguments Raise {A} e.
+
+Definition exn_name (e : exn) : string :=
+  (match e with
+  | IndexError => "IndexError" | StopIteration => "StopIteration" | ValueError => "ValueError"
+  | KeyError => "KeyError" | TypeError => "TypeError" | AssertionError => "AssertionError"
+  | AttributeError => "AttributeError"
+  | OutOfFuel => "OutOfFuel"
+  end)%string.
+
